@@ -14,6 +14,9 @@ pub use decoder::{Decoder, Probe};
 pub use decoder::{ArrayIter, ArrayIterWithCtx, BytesIter, MapIter, MapIterWithCtx, StrIter};
 pub use error::Error;
 
+#[cfg(all(minicbor_verif, feature = "std"))]
+pub use decoder::verif;
+
 #[cfg(feature = "half")]
 mod tokenizer;
 
